@@ -358,4 +358,11 @@ def main():
 
 
 if __name__ == "__main__":
-    sys.exit(main())
+    try:
+        rc = main()
+    except BaseException as e:  # noqa: BLE001 - a crash of the harness is never a verdict
+        import traceback
+
+        print(json.dumps({"violated": False, "harness_crash": f"{type(e).__name__}: {e}", "traceback": traceback.format_exc(limit=4)[-800:]}))
+        rc = 2
+    sys.exit(rc)
